@@ -400,3 +400,28 @@ def bool_label(lab):
     if lab == 'otherwise' or lab == '1':
         return True
     return None
+
+
+def origin_def(body, op, depth=8):
+    """Definition of the value an operand carries, through plain copies of temporaries:
+    -> ('call', bb, term) | ('rv', bb, rv) | ('place', pl) | ('const', op) | None, plus the local finally reached."""
+    cur = op
+    for _ in range(depth):
+        if is_const(cur):
+            return ('const', cur), None
+        if not is_place(cur):
+            return None, None
+        pl = cur['pl']
+        if pl['p'] or 1 <= pl['l'] <= body.arg_count:
+            return ('place', pl), pl['l']
+        d = body.single_def(pl['l'])
+        if d is None:
+            return None, pl['l']
+        if d[0] == 'call':
+            return ('call', d[1], d[2]), pl['l']
+        rv = d[3]['rv']
+        if rv['k'] == 'use' and is_place(rv['op']) and not rv['op']['pl']['p']:
+            cur = rv['op']
+            continue
+        return ('rv', d[1], rv), pl['l']
+    return None, None
